@@ -95,3 +95,9 @@ impl vstd::std_specs::iter::IteratorSpecImpl for BitIter {
     open spec fn decrease(&self) -> Option<nat> { Some(self.rem().len()) }
     open spec fn peek(&self, i: int) -> Option<u32> { if 0 <= i < self.rem().len() { Some(self.rem()[i]) } else { None } }
 }
+
+// BitSetOr(a, b): the union of two bit sets (here only at the instantiation the entities join uses)
+pub struct BitSetOr<A, B>(pub A, pub B);
+impl<'a> BitSetOr<&'a BitSet, &'a AtomicBitSet> {
+    pub open spec fn view(&self) -> Set<u32> { self.0@ + self.1@ }
+}
